@@ -34,7 +34,7 @@ type Scope struct {
 func NewScope(parent *Scope, pos, end token.Pos, comment string) *Scope {
 	s := &Scope{parent, nil, nil, pos, end, comment, false}
 	// don't add children to Universe scope!
-	if parent != nil && (parent != WaUniverse || parent != WzUniverse) {
+	if parent != nil && parent != WaUniverse && parent != WzUniverse {
 		parent.children = append(parent.children, s)
 	}
 	return s
